@@ -70,6 +70,11 @@ def _w(hs, history, **env):
   return {"env": e, "history": history}
 
 
+_ZOO_STUB = 'import os\nfrom typing import Literal, Union, overload, Callable, TypeVar, Generic, NamedTuple, Final, ClassVar\nT = TypeVar("T", int, str, bytes)\nU = TypeVar("U", bound=int)\ndef lit(c):\n  if c == 1: return "aa"\n  if c == 2: return "bb"\n  if c == 3: return "cc"\n  if c == 4: return 4\n  if c == 5: return None\n  return b"x"\nX = lit(os.getenv("a"))\ndef f(x: Literal["q", "w", "e", "r"], y: Literal[1, 2, 3] = 1) -> Literal["a", "b", "c"]:\n  return "a"\nclass S:\n  __slots__ = ("zz", "yy", "xx", "ww")\n  def __init__(self):\n    self.zz = 1; self.yy = \'s\'; self.xx = None; self.ww = 1.5\nclass K:\n  A: Final = 1\n  B: ClassVar[int] = 2\n  def __init__(self, **kw):\n    for k, v in kw.items():\n      setattr(self, k, v)\n    self.__dict__.update(kw)\n@overload\ndef o(x: int) -> int: ...\n@overload\ndef o(x: str) -> str: ...\n@overload\ndef o(x: bytes) -> bytes: ...\ndef o(x): return x\nd = {"a": 1, "b": "s", "c": None, "d": 1.5, "e": b"x"}\nst = {1, "s", None, 1.5, b"x"}\nfs = frozenset([1, "s", None])\ndef deco(fn): return fn\n@deco\ndef g(): return {k: v for k, v in d.items()}\ndef h(*args, **kwargs): return (args, kwargs)\nr = h(1, "s", a=1, b="s")\ntry:\n  import nope1, nope2\nexcept (ImportError, ValueError, KeyError) as e:\n  err = e\nglob = globals()\nloc = [k for k in dir()]\n'
+
+_ZOO_ERRORS = 'import os\nfrom typing import Union, Optional, List, Dict\ndef pick(c):\n  if c == 1: return "aa"\n  if c == 2: return 4\n  if c == 3: return None\n  if c == 4: return 1.5\n  if c == 5: return [1]\n  return b"x"\nX = pick(os.getenv("a"))\ne1 = X.nope\ne2 = X + 1\ne3 = X()\ne4 = X[0]\ndef f(a, b, c, *, d, e): pass\ne5 = f()\ne6 = f(1, 2, 3, zz=1, yy=2, xx=3, ww=4)\ne7 = f(1, 2, 3, d=1, e=2, **{"a": 1})\ndef g(x: int): pass\ne8 = g(X)\nclass A: pass\nclass B(A): pass\nclass C(A, B): pass\nclass D:\n  __slots__ = ("a", "b")\n  def __init__(self):\n    self.c = 1\na, b, c = X\nfor q in X: pass\ne9 = len(X)\ne10 = {X: 1}\nwith X as ctx: pass\ndef h(x: Union[int, str, bytes, float, None, List[int]] = X): pass\ne11: Dict[str, int] = X\ne12 = int(X)\ne13 = X.real\ndel X.foo\n'
+
+
 def scenarios():
   out = []
   base = {"u0": {"module": "d", "src": _D, "deps": [], "exports": {}},
@@ -187,4 +192,14 @@ def scenarios():
                          [_w(h, [_rq("ms", "text", kind=k)])
                           for h, k in ((1, "api"), (2, "file"), (3, "api"), (5, "api"),
                                        (6, "file"), (7, "api"))]})
+  # 10+11: "zoos" of constructs whose stub text / error messages are built
+  # from sets and unions (Literal unions, slots, overloads, containers of mixed
+  # types; errors on a six-member union, keyword lists, MRO) under several hash
+  # seeds and both paths
+  for name, src in (("stub_construct_zoo", _ZOO_STUB), ("error_message_zoo", _ZOO_ERRORS)):
+    zp = {"mz": {"module": "main", "src": src, "deps": [], "exports": {}}}
+    out.append({"programs": zp, "scripted": name + "_across_hash_seeds",
+                "workers": [_w0([_rq("mz", "text"), _rq("mz", "text", {"quick": True})])] +
+                           [_w(h, [_rq("mz", "text", kind=k), _rq("mz", "text", {"quick": True})])
+                            for h, k in ((1, "api"), (2, "file"), (4, "api"), (7, "file"))]})
   return out
